@@ -22,6 +22,7 @@ BUDGET = {
     "quick": {"examples": 160, "shards": 4, "case_timeout": 60, "wall_budget": 240},
     "thorough": {"examples": 4000, "shards": 16, "case_timeout": 120, "wall_budget": 1800},
 }
+FUZZ = {"thorough": dict(runs=20000, procs=8, wall_s=600)}
 TOLERANCES = {"fields": "1e-7 * scale", "fd_crosscheck": "1e-6 * scale", "second_derivative": "1e-5 * scale"}
 EPS = 1e-5
 
